@@ -27,6 +27,14 @@ def handler(job):
             cov = job["rho"] * math.sqrt(job["vx"] * job["vy"])
             sig = np.array([[job["vx"], cov], [cov, job["vy"]]])
             return {"V": mat(K.gaussian(X, Y, mu=np.array(job["mu"], dtype=float), sigma=sig), n)}
+        if k == "ridge":
+            sx, sy = math.sqrt(job["vx"]), math.sqrt(job["vy"])
+            z = np.array([t / 8.0 for t in job["ts"]]) * job["zscale"]
+            x = job["mu"][0] + z * sx
+            y = job["mu"][1] + job["sgn"] * z * sy
+            cov = job["rho"] * sx * sy
+            v = K.gaussian(x, y, mu=np.array(job["mu"], dtype=float), sigma=np.array([[job["vx"], cov], [cov, job["vy"]]]))
+            return {"R": [fl(t) for t in np.asarray(v, dtype=float)]}
         if k == "product":
             X, Y, n = grid(job["ts"], job["mu"], job["vx"], job["vy"], job.get("intpts", False))
             sig = np.array([[job["vx"], 0.0], [0.0, job["vy"]]])
